@@ -113,6 +113,9 @@ func main() {
 			fmt.Println(err)
 			os.Exit(2)
 		}
+		if p.StallDetector {
+			w.StartStallDetector()
+		}
 		p.Run(w)
 		w.End()
 		if err := w.Finish(); err != nil {
